@@ -30,9 +30,15 @@ structure MasterOut where
   rdata : Nat
 deriving Repr, Inhabited
 
-/-- state-only view of the bank interfaces: `req.ready` (FIFO writable) and `req.lock` -/
+/-- the bank interfaces' `req.ready` and `req.lock` as the crossbar sees them.  For a command buffer of depth ≥ 2
+they depend on the bank machine's state only (FIFO writable / anything queued); for depth 1 (a `stream.Buffer`)
+`ready` also depends combinationally on the multiplexer's acceptance of this bank machine's command, but not on what
+the crossbar offers - so they are read off a controller evaluation with no request offered.
+(Depth 0 - a wire from the crossbar to `cmd_buffer` - makes `lock` depend on the offered request and is not
+supported by the whole-core model; the controller and bank-machine models do support it.) -/
 def bankFb (c : Cfg) (s : State) : Array Crossbar.BankFb :=
-  s.ctl.bms.map fun b => { ready := b.level != c.ctl.bm.depth, lock := b.level != 0 || b.bufValid }
+  let idle := Array.replicate c.ctl.nbm ({ valid := false, we := false, addr := 0 } : Controller.BankIn)
+  (Controller.step c.ctl s.ctl idle).2.map fun o => { ready := o.ready, lock := o.lock }
 
 def step (c : Cfg) (s : State) (ms : Array Crossbar.MasterIn) : State × Array MasterOut × Array Controller.Phase :=
   let fb := bankFb c s
